@@ -480,8 +480,10 @@ def _pipe_rows(ctx):
                         if kb in regs_s:
                             slot_ = 'R'
                         if polled_ and slot_ != 'R':
-                            # CFG-reachable: confirm that a feasible path really gets here without a later registration
-                            if feasible_reach(k, start, {kb}, regs_s) or slot_ == 'C':
+                            # CFG-reachable: confirm that a feasible path (constant propagation through inlined helpers' answers) really gets
+                            # here without a registration after the poll, or after a clear that follows the poll
+                            if feasible_reach(k, start, {kb}, regs_s) or \
+                                    any(cb_ in reach and cb_ not in regs_s and any(nx_ == kb or feasible_reach(k, nx_, {kb}, regs_s) for nx_ in k.succs(cb_)) for cb_ in clears_s):
                                 badk.append((kb, slot_))
                 if not keeps2:
                     out.append(undecided(R, key2, 'no "keep polling" answer is reachable from the input poll'))
